@@ -65,6 +65,7 @@ func safeSeqRaw(q share.Sequence) (out string, data []byte) {
 }
 
 func (c *Ctx) sparseCase(specs []blobSpec, pads []int, resPad, tailPad int) {
+	defer c.recoverCase()
 	c.newCase()
 	c.emit("sss new", "ok")
 	sss := share.NewSparseShareSplitter()
